@@ -53,7 +53,7 @@ func (doc T) MarshalJSON() ([]byte, error) {
 	if x := doc.BasePath; x != "" {
 		m["basePath"] = x
 	}
-	if x := doc.Paths; len(x) != 0 {
+	if x := doc.Paths; x != nil { // (an empty paths object is a member of the document)
 		m["paths"] = x
 	}
 	if x := doc.Definitions; len(x) != 0 {
